@@ -300,7 +300,7 @@ fn fuzz(vals: &[ValueStr], n: usize, w: &mut NdjsonWriter, rng: &mut ChaCha8Rng)
             _ => {
                 // whitespace variants of an otherwise valid string (accepted: exercises canonicity), also with the
                 // rarer Unicode White_Space characters (no verdict is predicted for those: accepted => canonical)
-                let mut ws = |rng: &mut ChaCha8Rng| -> String {
+                let ws = |rng: &mut ChaCha8Rng| -> String {
                     match rng.gen_range(0..4) {
                         0 => String::new(),
                         1 => EXOTIC_WS[rng.gen_range(0..EXOTIC_WS.len())].to_string(),
